@@ -116,7 +116,7 @@ def model_check(ctx: Ctx, npoints: int, with_import: bool, strict_parts: list[st
 # scenarios
 # ------------------------------------------------------------------------------------------------
 def base_run(ctx: Ctx) -> list[dict]:
-    """The fault-free recording run (in a child, like every run); its points define the scenarios."""
+    """The fault-free recording run; its flush / commit points define the scenarios."""
     ents = F.run_campaign(ctx.scratch, [{"id": 0, "inj": None, "edits2": [], "edits3": []}], workers=1)
     rec = ents[0]["rec"]
     ctx.require(rec["outcome"] == ["ok", "r11"], f"fault-free workload did not return 12: {rec['outcome']} {rec.get('msg')}")
